@@ -271,3 +271,6 @@ func dominatingHeader(b *ssa.BasicBlock) *ssa.BasicBlock {
 	}
 	return nil
 }
+
+// faName is the name of the field a FieldAddr selects.
+func faName(fa *ssa.FieldAddr) string { return fieldName(fa.X.Type(), fa.Field) }
